@@ -138,6 +138,7 @@ class World:
         return ()
 
     # --- evidence ----------------------------------------------------------------------------
+    nontrivial_needs_fault = True
     real_components = ()
     stub_components = ()
     fault_kinds = ()
